@@ -143,13 +143,16 @@ def check_copy(copy_op, spec, elems):
 
 
 # ---- (c) observation-timing tier ------------------------------------------------
+PEEK = "·peek·"   # harness action, not program text: look at the first item of every lazy entry (a partial observation)
 TIMING_POOL = ["¾", "¥", "←x", ":", "D", "Ḃ", "⅛", "¼", "£", "→x", "1 9Ȧ", "0 7Ȧ", "Ṙ", "J", "5p", "U", "s", "ė", "K", "¦", "f", "h",
-               "t", "Ḣ", "Ṫ", "ṫ", "ḣ", "1+", "d", "›", "1", "2", "w", "$", "_", "z", "ż", "2ẇ", "y", "Y", "Z", "ƛd;", "'2%;", "vd", "1ȯ", "2Ẏ"]
+               "t", "Ḣ", "Ṫ", "ṫ", "ḣ", "1+", "d", "›", "1", "2", "w", "$", "_", "z", "ż", "2ẇ", "y", "Y", "Z", "ƛd;", "'2%;", "vd", "1ȯ", "2Ẏ", "L", "∑", "G", "1i", "N", PEEK, PEEK]
 _AR_CACHE = {}
 
 
 def _consumes(tok):
     """How many entries the piece may consume from the stack it finds (its net reach below)."""
+    if tok == PEEK:
+        return 0
     r = _AR_CACHE.get(tok)
     if r is None:
         structs = harness.vyxal.parse.parse(harness.vyxal.lexer.tokenise(tok))
@@ -187,6 +190,15 @@ def _run_prefix(spec, toks, k):
     ctx.stacks.append(stack)
     ns = None
     for tok in toks[:k]:
+        if tok == PEEK:
+            try:
+                with harness.watchdog(5), harness.fuel(100_000):
+                    for x in stack:
+                        if isinstance(x, harness.LazyList):
+                            x.has_ind(0) and x[0]
+            except BaseException:  # noqa: BLE001
+                return None
+            continue
         r = harness.exec_py(_code(tok), stack, ctx, budget=200_000, wall=10, ns=ns)
         if r.exc is not None:
             return None
@@ -219,31 +231,32 @@ def check_timing(spec, toks):
             keep = max(0, len(pvals) - _consumes(tok))
             if vals[:keep] != pvals[:keep]:
                 i = next(j for j in range(keep) if j >= len(vals) or vals[j] != pvals[j])
-                return (f"C10:timing:{tok}", f"stack=[v,v] with v={spec!r}, program {''.join(toks[:k])!r}: stack entry {i}, which {tok!r} does not consume, "
+                return (f"C10:timing:{tok}", f"stack=[v,v] with v={spec!r}, program {''.join(t if t != PEEK else "<peek>" for t in toks[:k])!r}: stack entry {i}, which {tok!r} does not consume, "
                         f"denotes {harness.jsonable(pvals[i])!r:.160} when observed before {tok!r} and "
                         f"{harness.jsonable(vals[i] if i < len(vals) else 'nothing')!r:.160} when first observed after it")
             for name, mut in (("register", "£"), ("global_array", "⅛¼"), ("x", "→x")):
                 if pstate[name] != state[name] and not any(m in tok for m in (mut if name != "x" else ["→x"])):
-                    return (f"C10:timing-state:{name}:{tok}", f"program {''.join(toks[:k])!r} on {spec!r}: {name} changed from "
+                    return (f"C10:timing-state:{name}:{tok}", f"program {''.join(t if t != PEEK else "<peek>" for t in toks[:k])!r} on {spec!r}: {name} changed from "
                             f"{harness.jsonable(pstate[name])!r:.160} to {harness.jsonable(state[name])!r:.160} although {tok!r} does not write it")
         prev = (vals, state)
     return None
 
 
-STATE_ALPHABET = ["¾", "¥", "←x", "⅛", "¼", "£", "→x", ":", "1", "Ṙ", "_"]
+STATE_ALPHABET = ["¾", "¥", "←x", "⅛", "¼", "£", "→x", ":", "1", "Ṙ", "_", PEEK, "$", "L"]
 
 
 def _shard_timing_exh(rec, arg):
     import itertools
 
     shard, nshards, maxlen = arg
-    spec = ("l", [1, 2])
     i = 0
     for L in range(2, maxlen + 1):
         for toks in itertools.product(STATE_ALPHABET, repeat=L):
             i += 1
             if i % nshards != shard:
                 continue
+            # eager for half of the programs, a (fresh, unevaluated) lazy list for the other half
+            spec = ("l", [1, 2]) if (i // nshards) % 2 == 0 else ("z", [1, 2, 3], 0)
             r = check_timing(spec, list(toks))
             if r and r[0] == "discard":
                 rec.discard("timing-" + r[1])
@@ -294,7 +307,9 @@ def _one(rec, key, seed, n):
             rec.fail(r[0], {"kind": "el", "key": key, "specs": elemargs.tolist(specs), "alias": bool(alias and k >= 2)}, r[1])
 
     strat = st.one_of(elemargs.args_strategy(key, k), st.tuples(*([elemargs.LST] * k)))
-    campaign.hyp_run(t, {"args": strat, "alias": st.sampled_from([False, False, False, True])}, seed + sum(map(ord, key)), n * (2 if k >= 3 else 1))
+    higher_order = any("fun" in t for t in elemargs.overloads().get(key, []))   # more type combinations to get through
+    campaign.hyp_run(t, {"args": strat, "alias": st.sampled_from([False, False, False, True])}, seed + sum(map(ord, key)),
+                     n * (2 if k >= 3 else 1) * (3 if higher_order else 1))
 
 
 ELEM_POOL = None
